@@ -44,6 +44,12 @@ class C13(Prop):
                 base = base + [[row[b] if j == a else row[a] if j == b else row[j] for j in range(m)] for row in base]
             rule = DET[i % 6]
             yield dict(entry=rule + ".scf", family="random", rule=rule, method="scf", P=base, tb=rng.choice(["random", "first", "accept"]), k=rng.randint(1, m + 1), seed=i)
+        for i in range(30 if tier == "quick" else 300):     # large electorates decided by one vote
+            m = rng.randint(2, 4); base = rng.choice([70000, 150000, 300000])
+            ballots = [rng.sample(range(1, m + 1), m) for _ in range(rng.randint(2, 4))]
+            rule = DET[i % 6]
+            yield dict(entry=rule + ".scf", family="big", rule=rule, method="scf", P=ballots, mults=[base + rng.choice([0, 1, 2]) for _ in ballots], shuffle_seed=i,
+                       tb=["random", "first", "accept"][i % 3], k=rng.randint(1, m), seed=i)
         N = 300 if tier == "quick" else 6000
         for i in range(N):
             n = rng.randint(1, 10); m = rng.randint(2, 7)   # m = 1: Borda/Veto scores sum to zero, outside the rule's domain
